@@ -186,6 +186,12 @@ func (f *Frame) boundVar(name, typ string) (*Val, *Term) {
 	if s, _, ok := scalarSortOf(t, f.E.Mode); ok {
 		return &Val{K: VScalar, T: t, X: Var(name, s)}, nil
 	}
+	if _, isIface := t.Underlying().(*types.Interface); isIface {
+		// an interface value: quantify over its packed key and unpack (tag, payload)
+		f.E.Uses["ikey"] = true
+		k := Var(name, IntS)
+		return &Val{K: VIface, T: t, Tag: App("ikey_tag", IntS, k), X: App("ikey_pay", IntS, k)}, nil
+	}
 	f.E.fail("bound variable of non-scalar type %s", typ)
 	return nil, nil
 }
@@ -491,8 +497,9 @@ func (f *Frame) indexVal(a, i *Val, env *Env) *Val {
 				if len(mk.vleaves) == 0 {
 					return f.zeroVal(mk.vt)
 				}
-				has := And(Neq(a.X, IntLit(0)), Select(f.mapDom(mk, a.X, env.State), i.X))
-				return f.iteVal(has, f.mapValue(mk, a.X, i.X, env.State), f.zeroVal(mk.vt))
+				kt := f.keyTermFor(a.T, i)
+				has := And(Neq(a.X, IntLit(0)), Select(f.mapDom(mk, a.X, env.State), kt))
+				return f.iteVal(has, f.mapValue(mk, a.X, kt, env.State), f.zeroVal(mk.vt))
 			}
 		}
 		if a.X.S.K == SString {
@@ -699,7 +706,7 @@ func (f *Frame) evalCall(e *CExpr, env *Env) *Val {
 	case "has":
 		m, k := arg(0), arg(1)
 		mk := f.mapInfo(m.T)
-		return boolVal(And(Neq(m.X, IntLit(0)), Select(f.mapDom(mk, m.X, env.State), k.X)))
+		return boolVal(And(Neq(m.X, IntLit(0)), Select(f.mapDom(mk, m.X, env.State), f.keyTermFor(m.T, k))))
 	case "dom":
 		m := arg(0)
 		mk := f.mapInfo(m.T)
